@@ -18,8 +18,9 @@ Objects (all defined outside this file):
 * `SimGF.shotProd x (state, register) = ∏_shots x(word of the shot)`.  With `R = MvPolynomial Word ℚ`,
   `x = X`, the identity `E[shotProd x] = (gfShot …)^N` says that the histogram of `N` shots is
   `Multinomial(N, p)`, `p` the Born distribution of the register value.
-* `SimGF.InF n valid op` — the fragment F: no `peek`, `peek_all`, `reset_all` (and, in this version, no
-  `measure_all`); gate placements valid; qubits `< n`; classical bits `< 64`.
+* `SimGF.InF n valid op` — the fragment F: no `peek`, `peek_all`, `reset_all`; `measure_all` in the Z basis
+  with `n` distinct classical bits; gate placements valid; qubits `< n`; classical bits `< 64` (a larger one
+  is a shift-overflow panic, D10); control lists of at most 64 bits.
 * `SimGF.Hyps α P nz n valid` — the named hypotheses: `LawfulAmp`, `LawfulSim`, `LawfulWeights` (amplitude and
   weight arithmetic; ℂ with `nz w := w` is a positive real is the intended instance), `GateSemOK` (every valid
   gate placement acts as its documented embedded unitary — the conjunction of C04 and C05) and `GateRuns`
@@ -64,12 +65,12 @@ variable {n N : Nat} {valid : GateTerm P → List Nat → Prop}
 
 /-- **The law from any homogeneous state** (all circuits of F, all register sizes, all range lists
 `(count, normalised state, word)`, all shot numbers, every commutative ring `R`, every `x`, every order
-oracle): the expected value of `∏_shots x(word)` is `∏_ranges gfShot(ops)(state, word)^count`. -/
-theorem exec_gf_partial (H : Hyps α P nz n valid) (ord : List (Nat × Nat) → List (Nat × Nat)) (toR : α →+* R)
-    (x : Nat → R) (ops : List (COp P)) (hF : ∀ op ∈ ops, InF n valid op) (rs : List (Rng α)) (hrs : Good n N rs) :
+oracle `ord` that lists the outcomes of a `measure_all` in some order — `(ord l).Perm l`): the expected value of `∏_shots x(word)` is `∏_ranges gfShot(ops)(state, word)^count`. -/
+theorem exec_gf_partial (H : Hyps α P nz n valid) (ord : List (Nat × Nat) → List (Nat × Nat))
+    (hord : ∀ l, (ord l).Perm l) (toR : α →+* R) (x : Nat → R) (ops : List (COp P)) (hF : ∀ op ∈ ops, InF n valid op) (rs : List (Rng α)) (hrs : Good n N rs) :
     expectOrd ord toR (execOps (vecBackend (α := α) (P := P)) (mkState n N rs) (mkReg rs) ops) (shotProd x) =
       value (gfShot n toR x ops) rs :=
-  exec_gf ord toR H x ops hF rs hrs
+  exec_gf toR hord H x ops hF rs hrs
 
 /- FULL STATEMENT (`histogram_gf_full`), for ALL circuits, which is what the property claims:
 
@@ -79,38 +80,38 @@ theorem exec_gf_partial (H : Hyps α P nz n valid) (ord : List (Nat × Nat) → 
    probability `‖P_o ψ‖²`, state kept) and `reset_all`.  It is FALSE of the pinned code:
    `peek_peek_not_multinomial` (D2), `measure_resetall_measure_not_multinomial` (D3) for the vector backend,
    `stab_reset_bell_not_born` (D4), `stab_peekall_bell_zero_prob_value` (D5) for the stabilizer backend.
-   Proved instead: the law on the fragment F for the vector backend.  Missing from F relative to the design:
-   `measure_all` (the categorical node; `gfShot` already has its clause), the stabilizer backend (its
-   measurement is tied to the vector backend by C03, not here), and `N = 0` (execution of 0 shots can panic,
-   D9, a finding of C18). -/
+   Proved instead: the law on the fragment F for the vector backend.  Not covered although not known to be
+   wrong: `measure_all` in the X and Y bases (needs the commutation of single-qubit gates on different qubits
+   with the projectors, which is not part of `GateSemOK`), the stabilizer backend (its measurement is tied to
+   the vector backend by C03, not here), and `N = 0` (execution of 0 shots can panic, D9, a finding of C18). -/
 
 /-- **Multinomial law, `histogram_gf` restricted to F** (all circuits of F, all `n`, all `N ≥ 1`, every
 commutative ring, every `x`): running the circuit for `N` shots from `|0…0⟩` with a cleared register, the
 generating function of the register contents is the `N`-th power of the single-shot Born generating
 function — the histogram is a `Multinomial(N, p)` draw. -/
-theorem histogram_gf_partial (H : Hyps α P nz n valid) (ord : List (Nat × Nat) → List (Nat × Nat)) (toR : α →+* R)
-    (x : Nat → R) (ops : List (COp P)) (hF : ∀ op ∈ ops, InF n valid op) (hN : 0 < N) :
+theorem histogram_gf_partial (H : Hyps α P nz n valid) (ord : List (Nat × Nat) → List (Nat × Nat))
+    (hord : ∀ l, (ord l).Perm l) (toR : α →+* R) (x : Nat → R) (ops : List (COp P)) (hF : ∀ op ∈ ops, InF n valid op) (hN : 0 < N) :
     expectOrd ord toR (execOps (vecBackend (α := α) (P := P)) (VecState.new n N) (List.replicate N 0) ops)
       (shotProd x) = gfShot n toR x ops (ket0 n, 0) ^ N :=
-  histogram_gf ord toR H x ops hF hN
+  histogram_gf toR hord H x ops hF hN
 
 /-- **Register values of probability zero never occur** (on F): if the single-shot Born coefficient of the
 value `v` is 0, the expectation of the indicator "some shot shows `v`" is 0. -/
 theorem zero_prob_never_partial (H : Hyps α P nz n valid) (ord : List (Nat × Nat) → List (Nat × Nat))
-    (toR : α →+* R) (ops : List (COp P)) (hF : ∀ op ∈ ops, InF n valid op) (hN : 0 < N) (v : Nat)
+    (hord : ∀ l, (ord l).Perm l) (toR : α →+* R) (ops : List (COp P)) (hF : ∀ op ∈ ops, InF n valid op) (hN : 0 < N) (v : Nat)
     (hv : gfShot n toR (fun u => if u = v then (1 : R) else 0) ops (ket0 n, 0) = 0) :
     expectOrd ord toR (execOps (vecBackend (α := α) (P := P)) (VecState.new n N) (List.replicate N 0) ops)
       (fun sc => if v ∈ sc.2 then (1 : R) else 0) = 0 :=
-  zero_prob_never ord toR H ops hF hN v hv
+  zero_prob_never toR hord H ops hF hN v hv
 
 /-- **A circuit of F never fails** (on F, all `n`, `N ≥ 1`): the successful runs have total probability 1 —
 no error return and no panic site of the model is reached with positive probability, and the single-shot
 coefficients of `gfShot` add up to 1. -/
-theorem exec_total_partial (H : Hyps α P nz n valid) (ord : List (Nat × Nat) → List (Nat × Nat)) (toR : α →+* R)
-    (ops : List (COp P)) (hF : ∀ op ∈ ops, InF n valid op) (hN : 0 < N) :
+theorem exec_total_partial (H : Hyps α P nz n valid) (ord : List (Nat × Nat) → List (Nat × Nat))
+    (hord : ∀ l, (ord l).Perm l) (toR : α →+* R) (ops : List (COp P)) (hF : ∀ op ∈ ops, InF n valid op) (hN : 0 < N) :
     expectOrd ord toR (execOps (vecBackend (α := α) (P := P)) (VecState.new n N) (List.replicate N 0) ops)
       (fun _ => (1 : R)) = 1 :=
-  exec_total ord toR H ops hF hN
+  exec_total toR hord H ops hF hN
 
 end
 
@@ -125,6 +126,10 @@ theorem hyps_arith_complex :
 
 open Q1t.Sim.Witness
 
+/-- all five hypotheses of `Hyps` are jointly satisfiable — shown here only degenerately (0 qubits, no valid gate
+placement, so the gate hypotheses are vacuous); a non-degenerate inhabitant is C04 + C05 -/
+example : Hyps ℂ ℝ SimGFComplex.nzC 0 (fun _ _ => False) := SimGFComplex.hyps_zero_qubits
+
 /-- a 2-qubit circuit with a mid-circuit measurement, a classically controlled gate, a reset and an X-basis
 measurement is in F -/
 example : ∀ op ∈ fragCirc, InF 2 (placed 2) op := fragCirc_inF
@@ -135,6 +140,14 @@ theorem histogram_gf_example :
     expectOrd id (RingHom.id Q8) (execOps (vecBackend (α := Q8) (P := Empty)) (VecState.new 2 2) [0, 0] fragCirc)
       (SimGF.shotProd xT) = gfShot 2 (RingHom.id Q8) xT fragCirc (ket0 2, 0) ^ 2 :=
   law_on_example
+
+/-- a circuit ending in a `measure_all` with permuted classical bits is in F, and the conclusion of the law
+holds on it (2 shots, kernel computation through the categorical node) -/
+example : ∀ op ∈ allCirc, InF 2 (placed 2) op := allCirc_inF
+theorem histogram_gf_example_measure_all :
+    expectOrd id (RingHom.id Q8) (execOps (vecBackend (α := Q8) (P := Empty)) (VecState.new 2 2) [0, 0] allCirc)
+      (SimGF.shotProd xT2) = gfShot 2 (RingHom.id Q8) xT2 allCirc (ket0 2, 0) ^ 2 :=
+  law_on_allCirc
 
 /-- its single-shot distribution has four values of probability ¼ … -/
 example : ∀ v ∈ [0, 3, 4, 7],
